@@ -1,31 +1,46 @@
-"""MANIFEST.setup_cmd: regenerate every Generated/*.lean from /repo and build all proofs + drivers."""
+"""MANIFEST.setup_cmd: regenerate every Generated/*.lean from /repo and build all proofs + drivers
+of the claimed properties (those with harness/meta/Cxx.json).  A property whose build fails here
+is reported by its own check (prove step), so setup itself only fails if the shared core fails."""
 import importlib
 import subprocess
 import sys
 import time
 from pathlib import Path
 
-from harness.common import Check, LEAN
+from harness.common import Check, LEAN, VERIF
+
 
 def main():
     t0 = time.time()
-    targets = []
+    r = subprocess.run(['lake', 'build', 'NoteSeqVerif'], cwd=LEAN)
+    if r.returncode != 0:
+        print('setup: shared core failed to build')
+        return 1
+    failed = []
     for p in sorted(Path(__file__).parent.glob('c[0-9][0-9].py')):
         pid = p.stem.upper()
-        mod = importlib.import_module('harness.' + p.stem)
-        chk = Check(pid, 'quick', 0)
-        if hasattr(mod, 'generate'):
-            try:
+        if not (VERIF / 'harness' / 'meta' / (pid + '.json')).exists():
+            continue
+        try:
+            mod = importlib.import_module('harness.' + p.stem)
+            chk = Check(pid, 'quick', 0)
+            if hasattr(mod, 'generate'):
                 mod.generate(chk)
-            except Exception as e:  # pylint: disable=broad-except
-                print('setup: generate(%s) failed: %s' % (pid, e))
-        targets += list(getattr(mod, 'MODULES', [])) + ([mod.EXE] if getattr(mod, 'EXE', None) else []) \
-            + list(getattr(mod, 'EXES', []))
-    targets = sorted(set(targets))
-    print('setup: building', ' '.join(targets), flush=True)
-    r = subprocess.run(['lake', 'build'] + targets, cwd=LEAN)
-    print('setup: lake build rc=%d in %.0fs' % (r.returncode, time.time() - t0))
-    return r.returncode
+            targets = list(getattr(mod, 'MODULES', [])) + ([mod.EXE] if getattr(mod, 'EXE', None) else []) \
+                + list(getattr(mod, 'EXES', []))
+        except Exception as e:  # pylint: disable=broad-except
+            print('setup: %s: generate/import failed: %s' % (pid, e))
+            failed.append(pid)
+            continue
+        t1 = time.time()
+        r = subprocess.run(['lake', 'build'] + sorted(set(targets)), cwd=LEAN, capture_output=True, text=True)
+        print('setup: %s: lake build %s rc=%d %.0fs' % (pid, ' '.join(targets), r.returncode, time.time() - t1), flush=True)
+        if r.returncode != 0:
+            print((r.stdout + r.stderr)[-1500:])
+            failed.append(pid)
+    print('setup: done in %.0fs; failed: %s' % (time.time() - t0, failed or 'none'))
+    return 0
+
 
 if __name__ == '__main__':
     sys.exit(main())
